@@ -227,3 +227,96 @@ Proof.
   vm_compute in E. inversion E; subst t. vm_compute in C1. inversion C1; subst st w tr.
   vm_compute in U. inversion U; subst st' ms. repeat split; reflexivity.
 Qed.
+
+(* ------------------------------------------------------------------------------------------------------------ *)
+(* a sufficient condition that is visible in the FIRST compilation alone: it took only DSkip decisions (every
+   sequence table had a valid length).  Then the compilation of every updated program exists, takes the same
+   decisions and raises no warning; only the table sharing of the parser remains a hypothesis. *)
+Definition is_skip (d : dec) : bool := match d with DSkip => true | _ => false end.
+
+Lemma prepare_skip_update us mn mx : forall f i tabs w tabs' w' tr,
+  prepare f mn mx i tabs w = Ok (tabs', w', tr) -> forallb is_skip tr = true ->
+  prepare f mn mx i (map (update us) tabs) w = Ok (map (update us) tabs, w, tr) /\ tabs' = tabs /\ w' = w.
+Proof.
+  induction f as [|f IH]; intros i tabs w tabs' w' tr H S; [discriminate|].
+  cbn [prepare] in H |- *. rewrite nth_error_map'.
+  destruct (nth_error tabs i) as [ti|] eqn:Ei; cbn [option_map].
+  2:{ inversion H; subst. repeat split. }
+  rewrite len_update.
+  destruct (mx <? len ti); [discriminate|].
+  destruct (len ti <? mn).
+  - exfalso.
+    repeat match goal with
+           | H : push ?d _ = Ok _ |- _ =>
+               apply push_inv in H; destruct H as [? [_ ->]]; cbn in S; try discriminate
+           | C : check_partial_unroll _ _ _ = Ok (Some (_, _, ?d)), S : context [is_skip ?d] |- _ =>
+               destruct (cpu_dec _ _ _ _ _ _ C) as [? [? ->]]; cbn in S; discriminate
+           | H : match ?x with _ => _ end = Ok _ |- _ => destruct x eqn:?; try discriminate
+           | H : (if ?c then _ else _) = Ok _ |- _ => destruct c eqn:?; try discriminate
+           end.
+  - apply push_inv in H. destruct H as [tr' [H ->]]. cbn in S.
+    destruct (IH _ _ _ _ _ _ H S) as [A [B C]]. rewrite A. cbn. repeat split; assumption.
+Qed.
+
+Lemma adv_tables_skip_update us f mn mx t1 tabs tr :
+  adv_tables f mn mx t1 = Ok (tabs, false, tr) -> forallb is_skip tr = true ->
+  adv_tables f mn mx (update us t1) = Ok (map (update us) tabs, false, tr).
+Proof.
+  unfold adv_tables. rewrite Proofs_prep.kids_update. intros H S.
+  destruct (fab f 2 (kids t1) false) as [[ch w1]|k] eqn:F1; [|discriminate].
+  destruct (prepare_skip_update us mn mx _ _ _ _ _ _ _ H S) as [A [B C]]. subst ch w1.
+  rewrite (fab_update us _ _ _ _ F1). exact A.
+Qed.
+
+Lemma parse_aseq_update_exists us : forall tabs done st st2 stf,
+  J us done st st2 -> parse_aseq (length done) tabs st = Ok stf ->
+  exists stf2, parse_aseq (length done) (map (update us) tabs) st2 = Ok stf2.
+Proof.
+  induction tabs as [|tl rest IH]; intros done st st2 stf Jv H; [cbn; eauto|].
+  cbn [map]. rewrite parse_aseq_unfold in H |- *.
+  destruct (parse_entries (length done) 0 (kids tl) (t_wfs st)) as [[[es wfs'] ps]|] eqn:E; [|discriminate].
+  destruct (J_step us _ _ _ _ _ _ _ Jv E) as [es2 [R2 Jn]]. rewrite R2.
+  replace (S (length done)) with (length (done ++ [tl])) in H |- * by (rewrite app_length, Nat.add_1_r; reflexivity).
+  eapply IH; eauto.
+Qed.
+
+Lemma forallb_len_update us mn mx tabs :
+  forallb (fun tl => (mn <=? len tl) && (len tl <=? mx)) (map (update us) tabs) =
+  forallb (fun tl => (mn <=? len tl) && (len tl <=? mx)) tabs.
+Proof. apply long_enough_update. Qed.
+
+Lemma tabor_compile_skip_only us f mode mn mx t st b tr :
+  tabor_compile f mode mn mx t = Ok (st, false, DRoot b :: tr) -> forallb is_skip tr = true ->
+  counts_ok (update us t) = true ->
+  exists st2, tabor_compile f mode mn mx (update us t) = Ok (st2, false, DRoot b :: tr) /\
+              forall st' ms, map snd (t_adv st2) = map snd (t_adv st) -> update_tabor us st = (st', ms) ->
+                             tab_view st' = tab_view st2.
+Proof.
+  intros H1 S C.
+  assert (E2 : exists st2, tabor_compile f mode mn mx (update us t) = Ok (st2, false, DRoot b :: tr)).
+  { revert H1. unfold tabor_compile. rewrite C. cbn [negb].
+    destruct (negb (counts_ok t)); [discriminate|].
+    rewrite (root_enc_update us t (root_enc_update_eq us t)), root_enc_update_eq.
+    set (t1 := if root_enc t then encapsulate t else t) in *.
+    assert (V1 : is_vol (rep_of t1) = false) by apply t1_not_vol.
+    rewrite depth_update.
+    destruct (match mode with Some m => m | None => if 1 <? depth t1 then MAdvanced else MSingle end).
+    - rewrite balanced_update, len_update.
+      destruct ((depth t1 =? 1) && balanced t1); [|discriminate]. destruct (mx <? len t1); [discriminate|].
+      rewrite parse_single_as_aseq by exact V1.
+      rewrite parse_single_as_aseq by (rewrite is_vol_update; exact V1).
+      destruct (parse_aseq 0 [t1] st_empty) as [sa|] eqn:P1; [|discriminate].
+      destruct (parse_aseq_single_update us t1 sa P1) as [sa2 [P2 _]]. rewrite P2.
+      intros H; inversion H; subst. eauto.
+    - rewrite (cnt_update_fixed us t1 V1).
+      destruct ((1 <? depth t1) && (cnt t1 =? 1)); [|discriminate].
+      destruct (adv_tables f mn mx t1) as [[[tabs wa] tra]|] eqn:A1; [|discriminate].
+      destruct (forallb (fun tl => (mn <=? len tl) && (len tl <=? mx)) tabs) eqn:L; [|discriminate].
+      destruct (parse_aseq 0 tabs (mkT [] [] [] [] false)) as [sa|] eqn:P1; [|discriminate].
+      intros H; inversion H; subst sa wa tra. clear H.
+      rewrite (adv_tables_skip_update us _ _ _ _ _ _ A1 S), forallb_len_update, L.
+      destruct (parse_aseq_update_exists us tabs [] st_empty st_empty st (J_empty us) P1) as [sa2 P2].
+      change (mkT [] [] [] [] false) with st_empty. cbn [length] in P2. rewrite P2. eauto. }
+  destruct E2 as [st2 E2]. exists st2. split; [exact E2|].
+  intros st' ms Hs Hu. destruct (tabor_compile_update us _ _ _ _ _ _ _ _ _ _ _ H1 E2 Hs Hu) as [A _]. exact A.
+Qed.
